@@ -171,8 +171,25 @@ static Type *get_common_type(Type *ty1, Type *ty2) {
 // be promoted to match with the other.
 //
 // This operation is called the "usual arithmetic conversion".
+// The type of an operand for the purpose of the integer promotions.
+// A bit-field whose values all fit in an int is promoted to int
+// whatever its declared type (C11 6.3.1.1p2; gcc and clang apply this
+// to bit-fields of every integer type), and an enumeration behaves as
+// its compatible type int.
+Type *promoted_type(Node *node) {
+  Type *ty = node->ty;
+  if (node->kind == ND_MEMBER && node->member->is_bitfield && is_integer(ty)) {
+    int width = node->member->bit_width;
+    if (width < 32 || (width == 32 && !ty->is_unsigned))
+      return ty_int;
+  }
+  if (ty->kind == TY_ENUM)
+    return ty_int;
+  return ty;
+}
+
 static void usual_arith_conv(Node **lhs, Node **rhs) {
-  Type *ty = get_common_type((*lhs)->ty, (*rhs)->ty);
+  Type *ty = get_common_type(promoted_type(*lhs), promoted_type(*rhs));
   *lhs = new_cast(*lhs, ty);
   *rhs = new_cast(*rhs, ty);
 }
@@ -210,7 +227,7 @@ void add_type(Node *node) {
     node->ty = node->lhs->ty;
     return;
   case ND_NEG: {
-    Type *ty = get_common_type(ty_int, node->lhs->ty);
+    Type *ty = get_common_type(ty_int, promoted_type(node->lhs));
     node->lhs = new_cast(node->lhs, ty);
     node->ty = ty;
     return;
@@ -240,7 +257,7 @@ void add_type(Node *node) {
   case ND_BITNOT:
   case ND_SHL:
   case ND_SHR: {
-    Type *ty = get_common_type(ty_int, node->lhs->ty);
+    Type *ty = get_common_type(ty_int, promoted_type(node->lhs));
     node->lhs = new_cast(node->lhs, ty);
     node->ty = ty;
     return;
